@@ -90,6 +90,16 @@ def select(fn: ast.AST, sel):
             hits.append((n.lineno, n.col_offset, n.value))
         elif kind == "kwarg" and isinstance(n, ast.keyword) and n.arg == sel[1]:
             hits.append((n.value.lineno, n.value.col_offset, n.value))
+        elif kind == "iftest" and isinstance(n, (ast.If, ast.IfExp, ast.While)) and (
+                len(sel) == 2 or sel[1] in ast.unparse(n.test)):
+            # ("iftest", k) / ("iftest", substring, k): the test of the k-th `if`/`elif`/conditional
+            # expression/`while` of the function (whose source contains `substring`)
+            hits.append((n.test.lineno, n.test.col_offset, n.test))
+        elif kind == "callarg" and isinstance(n, ast.Call) and len(n.args) > sel[2] and (
+                (isinstance(n.func, ast.Name) and n.func.id == sel[1])
+                or (isinstance(n.func, ast.Attribute) and n.func.attr == sel[1])):
+            # ("callarg", funcname, argindex, k): positional argument `argindex` of the k-th call of `funcname`
+            hits.append((n.lineno, n.col_offset, n.args[sel[2]]))
     hits.sort(key=lambda h: (h[0], h[1]))
     k = sel[-1]
     if k >= len(hits):
@@ -153,6 +163,7 @@ class Tx:
         self.src_text = src_text
         self.inline = inline or {}
         self.int_names = set(int_names)
+        self.site = None  # set by emitters; sites with "ext": True route through tools/py2lean_ext.py first
 
     def f(self, name):
         if name not in FUNCS or FUNCS[name][MODE_IDX[self.mode]] is None:
@@ -163,6 +174,12 @@ class Tx:
         key = ast.unparse(n)
         if key in self.params:
             return self.params[key]
+        if self.site is not None and self.site.get("ext"):
+            import py2lean_ext
+
+            r = py2lean_ext.tx_hook(self, n)
+            if r is not None:
+                return r
         if isinstance(n, ast.Constant):
             text = ast.get_source_segment(self.src_text, n) if self.src_text else None
             if isinstance(n.value, float) and text is not None:
@@ -260,7 +277,10 @@ def emit_site(src: Source, site: dict, mode: str):
     for var, sel in site.get("inline", {}).items():
         inline[var] = select(fn, tuple(sel))
     tx = Tx(mode, site["params_map"], text, inline)
+    tx.site = site
     body = tx.e(node)
+    if getattr(tx, "hoisted", None):
+        raise Unsupported("call to a raising generated function in an expression site (use a whole-function site)")
     sc = SCALAR[mode]
     ptys = site.get("param_types", {})
     binders = " ".join(f"({p} : {ptys.get(p, sc).replace('Scalar', sc)})" for p in site["params"])
@@ -298,13 +318,15 @@ def emit_table(src: Source, site: dict, mode: str):
         if not isinstance(target, ast.Dict):
             raise Unsupported("not a dict literal")
         rows = []
-        tx = Tx(mode, {}, text)
+        # optional symbolic parameters (e.g. {"np.pi": "pi"} keeps the table exact and executable over Rat)
+        tx = Tx(mode, site.get("params_map", {}), text)
         for k, v in zip(target.keys, target.values):
             if not (isinstance(k, ast.Constant) and isinstance(k.value, str)):
                 raise Unsupported("non-string key")
             rows.append(f'  ("{k.value}", {tx.e(v)})')
         body = "[\n" + ",\n".join(rows) + "]"
-        return f"{nc}def {site['name']} : List (String × {sc}) :=\n  {body}\n", {"rows": len(rows), "sha": hashlib.sha256(ast.dump(target).encode()).hexdigest()[:16]}
+        binders = "".join(f" ({p} : {sc})" for p in site.get("params", []))
+        return f"{nc}def {site['name']}{binders} : List (String × {sc}) :=\n  {body}\n", {"rows": len(rows), "sha": hashlib.sha256(ast.dump(target).encode()).hexdigest()[:16]}
     if kind == "str_strs_dict":
         rows = []
         for k, v in zip(target.keys, target.values):
@@ -351,7 +373,11 @@ def main():
             modules.setdefault((mod, mode), [])
             key = f"{mod}.{site['name']}"
             try:
-                if site.get("table"):
+                if site.get("whole") or site.get("module_consts"):
+                    import py2lean_ext
+
+                    text, info = py2lean_ext.emit_func(src, site, mode) if site.get("whole") else py2lean_ext.emit_module_consts(site, mode)
+                elif site.get("table"):
                     text, info = emit_table(src, site, mode)
                 else:
                     text, info = emit_site(src, site, mode)
